@@ -263,8 +263,394 @@ fn local_sweep(c: &mut Ctx) {
     }
 }
 
+// ---- Parsed::set_*: the setters by number, their documented value ranges, what they store ------------------
+const N_SETTERS_RANDOM: usize = 21; // the setters the random Parsed sweep drives (0..=20); #21 = set_offset
+fn parsed_set(p: &mut Parsed, k: usize, v: i64) -> chrono::format::ParseResult<()> {
+    match k {
+        0 => p.set_year(v),
+        1 => p.set_year_div_100(v),
+        2 => p.set_year_mod_100(v),
+        3 => p.set_isoyear(v),
+        4 => p.set_isoyear_div_100(v),
+        5 => p.set_isoyear_mod_100(v),
+        6 => p.set_quarter(v),
+        7 => p.set_month(v),
+        8 => p.set_week_from_sun(v),
+        9 => p.set_week_from_mon(v),
+        10 => p.set_isoweek(v),
+        11 => p.set_weekday(WD[(v.rem_euclid(7)) as usize]),
+        12 => p.set_ordinal(v),
+        13 => p.set_day(v),
+        14 => p.set_ampm(v % 2 == 0),
+        15 => p.set_hour12(v),
+        16 => p.set_hour(v),
+        17 => p.set_minute(v),
+        18 => p.set_second(v),
+        19 => p.set_nanosecond(v),
+        20 => p.set_timestamp(v),
+        _ => p.set_offset(v),
+    }
+}
+/// the values setter `k` must refuse with `OutOfRange` are exactly those outside this range (the documented
+/// "# Errors" of each setter). `set_hour` is documented to refuse at least what a `u32` cannot hold ("may"
+/// refuse beyond 23): only the `u32` bound is demanded of it. Weekday, am/pm and timestamp take every value.
+fn parsed_range(k: usize) -> (i64, i64) {
+    match k {
+        0 | 3 | 21 => (i32::MIN as i64, i32::MAX as i64),
+        1 | 4 => (0, i32::MAX as i64),
+        2 | 5 => (0, 99),
+        6 => (1, 4),
+        7 | 15 => (1, 12),
+        8 | 9 => (0, 53),
+        10 => (1, 53),
+        12 => (1, 366),
+        13 => (1, 31),
+        16 => (0, u32::MAX as i64),
+        17 => (0, 59),
+        18 => (0, 60),
+        19 => (0, 999_999_999),
+        _ => (i64::MIN, i64::MAX),
+    }
+}
+/// the content of the field(s) setter `k` writes, mapped back to the argument that stores it
+fn parsed_get(p: &Parsed, k: usize) -> Option<i64> {
+    match k {
+        0 => p.year.map(i64::from),
+        1 => p.year_div_100.map(i64::from),
+        2 => p.year_mod_100.map(i64::from),
+        3 => p.isoyear.map(i64::from),
+        4 => p.isoyear_div_100.map(i64::from),
+        5 => p.isoyear_mod_100.map(i64::from),
+        6 => p.quarter.map(i64::from),
+        7 => p.month.map(i64::from),
+        8 => p.week_from_sun.map(i64::from),
+        9 => p.week_from_mon.map(i64::from),
+        10 => p.isoweek.map(i64::from),
+        11 => p.weekday.map(|w| w.num_days_from_monday() as i64),
+        12 => p.ordinal.map(i64::from),
+        13 => p.day.map(i64::from),
+        14 => p.hour_div_12.map(i64::from),
+        15 => p.hour_mod_12.map(|h| if h == 0 { 12 } else { h as i64 }),
+        16 => match (p.hour_div_12, p.hour_mod_12) {
+            (Some(d), Some(m)) => Some(d as i64 * 12 + m as i64),
+            _ => None,
+        },
+        17 => p.minute.map(i64::from),
+        18 => p.second.map(i64::from),
+        19 => p.nanosecond.map(i64::from),
+        20 => p.timestamp,
+        _ => p.offset.map(i64::from),
+    }
+}
+/// one `Parsed::set_*` call under `catch_unwind`, judged: a panic is a failure; a value outside the documented
+/// range must come back as `Err(OutOfRange)`; `Ok` means the field holds exactly the value; a value inside the
+/// range is refused only as `Impossible`, and only if the field was set before (`fresh` = it was not)
+fn parsed_set_checked(c: &mut Ctx, p: &mut Parsed, k: usize, v: i64) {
+    use chrono::format::ParseErrorKind as K;
+    c.count("call:Parsed::set_*");
+    let fresh = match k {
+        16 => p.hour_div_12.is_none() && p.hour_mod_12.is_none(),
+        _ => parsed_get(p, k).is_none(),
+    };
+    let r = guard(|| parsed_set(p, k, v));
+    let (lo, hi) = parsed_range(k);
+    let inside = lo <= v && v <= hi;
+    let want = match k {
+        11 => v.rem_euclid(7),
+        14 => (v % 2 == 0) as i64,
+        _ => v,
+    };
+    match r {
+        Err(()) => c.fail(&format!("panic in fallible operation Parsed::set_* (setter #{k})"), &format!("setter #{k} value {v}")),
+        Ok(Ok(())) => {
+            c.count("parsed-set:ok");
+            if !inside {
+                c.fail("Parsed::set_* accepted a value outside the documented range of the field (must be Err(OutOfRange))", &format!("setter #{k} value {v} -> Ok, field {:?}", parsed_get(p, k)));
+            } else if parsed_get(p, k) != Some(want) {
+                c.fail("Parsed::set_* returned Ok but the field does not hold the value", &format!("setter #{k} value {v} -> field {:?}", parsed_get(p, k)));
+            }
+        }
+        Ok(Err(e)) => match e.kind() {
+            K::OutOfRange => {
+                c.count("parsed-set:out-of-range");
+                // set_hour documents 0-23 and "may" refuse beyond: refusing 24.. is within its contract
+                if inside && !(k == 16 && v > 23) {
+                    c.fail("Parsed::set_* refused a value inside the documented range of the field as OutOfRange", &format!("setter #{k} value {v}"));
+                }
+            }
+            K::Impossible => {
+                c.count("parsed-set:impossible");
+                if !inside {
+                    c.fail("Parsed::set_* reports a value the field cannot hold as Impossible, not OutOfRange", &format!("setter #{k} value {v}"));
+                } else if fresh {
+                    c.fail("Parsed::set_* reports Impossible on a field that was not set", &format!("setter #{k} value {v}"));
+                }
+            }
+            other => c.fail("Parsed::set_* failed with an error kind it does not document", &format!("setter #{k} value {v} -> {:?}", other)),
+        },
+    }
+}
+/// every setter (incl. `set_offset`) on a fresh `Parsed`, at the boundaries of every field type and range
+fn parsed_setter_sweep(c: &mut Ctx) {
+    let mut vals: Vec<i64> = vec![
+        i64::MIN, i64::MIN + 1, i32::MIN as i64 - 1, i32::MIN as i64, i32::MIN as i64 + 1, -262144, -100, -2, -1, 0, 1, 2, 3, 4, 5, 6, 7, 11, 12, 13, 23, 24, 30, 31, 32,
+        52, 53, 54, 58, 59, 60, 61, 98, 99, 100, 365, 366, 367, 2024, 262143, 999_999_998, 999_999_999, 1_000_000_000, 1_999_999_999, i32::MAX as i64 - 1, i32::MAX as i64,
+        i32::MAX as i64 + 1, u32::MAX as i64 - 1, u32::MAX as i64, u32::MAX as i64 + 1, u32::MAX as i64 + 13, (1i64 << 32) + 23, (1i64 << 33) + 5, i64::MAX - 1, i64::MAX,
+    ];
+    vals.sort();
+    vals.dedup();
+    for k in 0..=N_SETTERS_RANDOM {
+        for &v in &vals {
+            let mut p = Parsed::new();
+            parsed_set_checked(c, &mut p, k, v);
+            // a second, different in-range value on the same field: Impossible by value (or OutOfRange), no panic
+            parsed_set_checked(c, &mut p, k, v.wrapping_add(1));
+        }
+    }
+}
+
+// ---- counts for `Days::new` / `Months::new`: the whole integer range, and around the length of the date range
+fn day_counts() -> Vec<u64> {
+    vec![
+        0, 1, 2, 365, 366, 146_097, 191_491_528, 191_491_529, 191_491_530, 191_491_531, i32::MAX as u64 - 1, i32::MAX as u64, i32::MAX as u64 + 1,
+        u32::MAX as u64 - 1, u32::MAX as u64, u32::MAX as u64 + 1, (1u64 << 32) + 1, i64::MAX as u64 - 1, i64::MAX as u64, i64::MAX as u64 + 1, i64::MAX as u64 + 2,
+        u64::MAX - 191_491_530, u64::MAX - 1, u64::MAX,
+    ]
+}
+fn month_counts() -> Vec<u32> {
+    vec![
+        0, 1, 2, 11, 12, 13, 1200, 3_145_727, 3_145_728, 3_145_729, 6_291_430, 6_291_431, 6_291_432, i32::MAX as u32 - 1, i32::MAX as u32, i32::MAX as u32 + 1,
+        u32::MAX - 6_291_431, u32::MAX - 1, u32::MAX,
+    ]
+}
+fn month_index(d: &NaiveDateTime) -> i64 {
+    d.year() as i64 * 12 + d.month0() as i64
+}
+
+/// `NaiveDateTime`: calendar arithmetic with `Months`/`Days` counts over the whole integer range and the
+/// `Datelike`/`Timelike` `with_*` methods, on the given base values. A panic is a failure; a `Some` result is
+/// a valid value, exactly the stated number of months/days away with the time of day untouched (so a count
+/// beyond the span of the type, or one that wraps to a small or negative number, can only be `None`), resp.
+/// a value whose field is the requested one.
+fn ndt_sweep(c: &mut Ctx, bases: &[NaiveDateTime]) {
+    for b in bases {
+        for n in month_counts() {
+            for (sign, r) in [
+                (1i64, t!(c, "NaiveDateTime::checked_add_months", (b, n), b.checked_add_months(Months::new(n)))),
+                (-1, t!(c, "NaiveDateTime::checked_sub_months", (b, n), b.checked_sub_months(Months::new(n)))),
+            ] {
+                match r {
+                    Some(Some(x)) => {
+                        c.count("ndt-months:some");
+                        if !dt_ok(&x) {
+                            c.fail("operation built an invalid date-time", &format!("{:?} months {sign}*{n}", b));
+                        } else if x.time() != b.time() || month_index(&x) - month_index(b) != sign * n as i64 {
+                            c.fail("NaiveDateTime::checked_{add,sub}_months returned a value that is not the stated number of months away with the same time of day", &format!("{:?} months {sign}*{n} -> {:?}", b, x));
+                        }
+                    }
+                    Some(None) => {
+                        c.count("ndt-months:none");
+                        if n == 0 {
+                            c.fail("NaiveDateTime::checked_{add,sub}_months refuses a count of zero", &format!("{:?}", b));
+                        }
+                    }
+                    None => {}
+                }
+            }
+        }
+        for n in day_counts() {
+            for (sign, r) in [
+                (1i64, t!(c, "NaiveDateTime::checked_add_days", (b, n), b.checked_add_days(Days::new(n)))),
+                (-1, t!(c, "NaiveDateTime::checked_sub_days", (b, n), b.checked_sub_days(Days::new(n)))),
+            ] {
+                match r {
+                    Some(Some(x)) => {
+                        c.count("ndt-days:some");
+                        if !dt_ok(&x) {
+                            c.fail("operation built an invalid date-time", &format!("{:?} days {sign}*{n}", b));
+                        } else if x.time() != b.time() || i128::from(x.date().signed_duration_since(b.date()).num_days()) != sign as i128 * n as i128 {
+                            c.fail("NaiveDateTime::checked_{add,sub}_days returned a value that is not the stated number of days away with the same time of day", &format!("{:?} days {sign}*{n} -> {:?}", b, x));
+                        }
+                    }
+                    Some(None) => {
+                        c.count("ndt-days:none");
+                        if n == 0 {
+                            c.fail("NaiveDateTime::checked_{add,sub}_days refuses a count of zero", &format!("{:?}", b));
+                        }
+                    }
+                    None => {}
+                }
+            }
+        }
+        for n in [
+            0u32, 1, 2, 11, 12, 13, 23, 24, 28, 29, 30, 31, 32, 58, 59, 60, 61, 364, 365, 366, 367, 999_999_999, 1_000_000_000, 1_999_999_999, 2_000_000_000, i32::MAX as u32,
+            i32::MAX as u32 + 1, u32::MAX - 1, u32::MAX,
+        ] {
+            let rs: [(Option<Option<NaiveDateTime>>, fn(&NaiveDateTime) -> u32); 10] = [
+                (t!(c, "NaiveDateTime::with_month", (b, n), b.with_month(n)), <NaiveDateTime as Datelike>::month),
+                (t!(c, "NaiveDateTime::with_month0", (b, n), b.with_month0(n)), <NaiveDateTime as Datelike>::month0),
+                (t!(c, "NaiveDateTime::with_day", (b, n), b.with_day(n)), <NaiveDateTime as Datelike>::day),
+                (t!(c, "NaiveDateTime::with_day0", (b, n), b.with_day0(n)), <NaiveDateTime as Datelike>::day0),
+                (t!(c, "NaiveDateTime::with_ordinal", (b, n), b.with_ordinal(n)), <NaiveDateTime as Datelike>::ordinal),
+                (t!(c, "NaiveDateTime::with_ordinal0", (b, n), b.with_ordinal0(n)), <NaiveDateTime as Datelike>::ordinal0),
+                (t!(c, "NaiveDateTime::with_hour", (b, n), b.with_hour(n)), <NaiveDateTime as Timelike>::hour),
+                (t!(c, "NaiveDateTime::with_minute", (b, n), b.with_minute(n)), <NaiveDateTime as Timelike>::minute),
+                (t!(c, "NaiveDateTime::with_second", (b, n), b.with_second(n)), <NaiveDateTime as Timelike>::second),
+                (t!(c, "NaiveDateTime::with_nanosecond", (b, n), b.with_nanosecond(n)), <NaiveDateTime as Timelike>::nanosecond),
+            ];
+            for (k, (r, get)) in rs.into_iter().enumerate() {
+                if let Some(Some(x)) = r {
+                    c.count("ndt-with:some");
+                    if !dt_ok(&x) {
+                        c.fail("operation built an invalid date-time", &format!("{:?} with_* #{k} arg {n}", b));
+                    } else if guard(|| get(&x)) != Ok(n) {
+                        c.fail("NaiveDateTime::with_* returned a value whose field is not the requested one", &format!("{:?} with_* #{k} arg {n} -> {:?}", b, x));
+                    }
+                } else if let Some(None) = r {
+                    c.count("ndt-with:none");
+                }
+            }
+        }
+        for y in [i32::MIN, i32::MIN + 1, -262145, -262144, -262143, -262142, -401, -400, -1, 0, 1, 1970, 2023, 2024, 262141, 262142, 262143, 262144, i32::MAX - 1, i32::MAX] {
+            if let Some(Some(x)) = t!(c, "NaiveDateTime::with_year", (b, y), b.with_year(y)) {
+                if !dt_ok(&x) {
+                    c.fail("operation built an invalid date-time", &format!("{:?} with_year {y}", b));
+                } else if x.year() != y || x.time() != b.time() {
+                    c.fail("NaiveDateTime::with_* returned a value whose field is not the requested one", &format!("{:?} with_year {y} -> {:?}", b, x));
+                }
+            }
+        }
+    }
+}
+
+/// `TimeZone::timestamp_micros` (the `MappedLocalTime`-typed one), `Month`/`Weekday` from integers
+fn micros_and_enum_sweep(c: &mut Ctx, offs: &[FixedOffset]) {
+    use chrono::MappedLocalTime as M;
+    use num_traits::FromPrimitive;
+    const MIN_US: i64 = -8_334_601_228_800_000_000; // NaiveDateTime::MIN, in microseconds since the epoch
+    const MAX_US: i64 = 8_210_266_876_799_999_999; // the last microsecond of NaiveDateTime::MAX
+    let mut us: Vec<i64> = i64s();
+    for b in [MIN_US, MAX_US, 0, 1_000_000, -1_000_000, 999_999, -999_999, 1_431_648_000_000_000] {
+        for d in -1..=1 {
+            us.push(b + d);
+        }
+    }
+    us.sort();
+    us.dedup();
+    fn judge<Tz: TimeZone>(c: &mut Ctx, what: &str, us: i64, r: Option<M<DateTime<Tz>>>)
+    where
+        Tz::Offset: std::fmt::Display,
+    {
+        let inside = (MIN_US..=MAX_US).contains(&us);
+        match r {
+            Some(M::Single(x)) => {
+                c.count("timestamp_micros:single");
+                if !zoned_ok(&x) {
+                    c.fail("timestamp_micros built an out-of-range value", &format!("{what} {us}"));
+                } else if !inside || guard(|| x.timestamp_micros()) != Ok(us) {
+                    c.fail("TimeZone::timestamp_micros returned a value that is not the stated instant", &format!("{what} {us} -> {:?}", x.naive_utc()));
+                }
+            }
+            Some(M::None) => {
+                c.count("timestamp_micros:none");
+                if inside {
+                    c.fail("TimeZone::timestamp_micros refuses an instant inside the range of DateTime", &format!("{what} {us}"));
+                }
+            }
+            Some(M::Ambiguous(..)) => c.fail("TimeZone::timestamp_micros is ambiguous for a fixed offset", &format!("{what} {us}")),
+            None => {}
+        }
+    }
+    for &u in &us {
+        let r = t!(c, "TimeZone::timestamp_micros", ("Utc", u), Utc.timestamp_micros(u));
+        judge(c, "Utc", u, r);
+        for o in offs {
+            let r = t!(c, "TimeZone::timestamp_micros", (o, u), o.timestamp_micros(u));
+            judge(c, &format!("{:?}", o), u, r);
+        }
+    }
+    // Month / Weekday from integers: Ok/Some exactly on 1..=12 resp. 0..=6 (Monday = 0), the right variant
+    for b in 0..=u8::MAX {
+        match t!(c, "Month::try_from(u8)", b, Month::try_from(b)) {
+            Some(Ok(m)) => {
+                if !(1..=12).contains(&b) || m.number_from_month() != b as u32 {
+                    c.fail("Month::try_from(u8) accepts a number that is not a month, or yields another month", &format!("{b} -> {:?}", m));
+                }
+            }
+            Some(Err(_)) => {
+                if (1..=12).contains(&b) {
+                    c.fail("Month::try_from(u8) refuses a month number", &format!("{b}"));
+                }
+            }
+            None => {}
+        }
+        match t!(c, "Weekday::try_from(u8)", b, Weekday::try_from(b)) {
+            Some(Ok(w)) => {
+                if b > 6 || w.num_days_from_monday() != b as u32 {
+                    c.fail("Weekday::try_from(u8) accepts a number that is not a weekday, or yields another weekday", &format!("{b} -> {:?}", w));
+                }
+            }
+            Some(Err(_)) => {
+                if b <= 6 {
+                    c.fail("Weekday::try_from(u8) refuses a weekday number", &format!("{b}"));
+                }
+            }
+            None => {}
+        }
+    }
+    let mut ints: Vec<i128> = int_extremes();
+    ints.extend([3, 4, 5, 6, 7, 8, 11, 12, 13, 14, -6, -7, -12, 256, 257, 262, 268, (1i128 << 32) + 1, (1i128 << 32) + 6, (1i128 << 32) + 12, (1i128 << 63) + 1, (1i128 << 63) + 12]);
+    ints.sort();
+    ints.dedup();
+    for &v in &ints {
+        let is_month = (1..=12).contains(&v);
+        let is_wd = (0..=6).contains(&v);
+        let mut months: Vec<(&str, Option<Option<Month>>)> = vec![];
+        let mut wds: Vec<(&str, Option<Option<Weekday>>)> = vec![];
+        if let Ok(x) = u64::try_from(v) {
+            months.push(("from_u64", t!(c, "Month::from_u64", x, Month::from_u64(x))));
+            wds.push(("from_u64", t!(c, "Weekday::from_u64", x, Weekday::from_u64(x))));
+        }
+        if let Ok(x) = i64::try_from(v) {
+            months.push(("from_i64", t!(c, "Month::from_i64", x, Month::from_i64(x))));
+            wds.push(("from_i64", t!(c, "Weekday::from_i64", x, Weekday::from_i64(x))));
+        }
+        if let Ok(x) = u32::try_from(v) {
+            months.push(("from_u32", t!(c, "Month::from_u32", x, Month::from_u32(x))));
+            wds.push(("from_u32", t!(c, "Weekday::from_u32", x, Weekday::from_u32(x))));
+        }
+        if let Ok(x) = i32::try_from(v) {
+            months.push(("from_i32", t!(c, "Month::from_i32", x, Month::from_i32(x))));
+            wds.push(("from_i32", t!(c, "Weekday::from_i32", x, Weekday::from_i32(x))));
+        }
+        if let Ok(x) = u8::try_from(v) {
+            months.push(("from_u8", t!(c, "Month::from_u8", x, Month::from_u8(x))));
+            wds.push(("from_u8", t!(c, "Weekday::from_u8", x, Weekday::from_u8(x))));
+        }
+        if let Ok(x) = i8::try_from(v) {
+            months.push(("from_i8", t!(c, "Month::from_i8", x, Month::from_i8(x))));
+            wds.push(("from_i8", t!(c, "Weekday::from_i8", x, Weekday::from_i8(x))));
+        }
+        for (f, r) in months {
+            if let Some(m) = r {
+                if m.is_some() != is_month || m.map_or(false, |m| m.number_from_month() as i128 != v) {
+                    c.fail("FromPrimitive for Month: Some exactly for 1..=12, the month of that number", &format!("Month::{f}({v}) -> {:?}", m));
+                }
+            }
+        }
+        for (f, r) in wds {
+            if let Some(w) = r {
+                if w.is_some() != is_wd || w.map_or(false, |w| w.num_days_from_monday() as i128 != v) {
+                    c.fail("FromPrimitive for Weekday: Some exactly for 0..=6, the weekday that many days after Monday", &format!("Weekday::{f}({v}) -> {:?}", w));
+                }
+            }
+        }
+    }
+}
+
 pub fn run(c: &mut Ctx) {
     local_sweep(c);
+    parsed_setter_sweep(c);
     let (i32v, u32v, i64v) = (i32s(), u32s(), i64s());
     let (ds, ts, dls, offs) = (dates(), times(), deltas(), offsets());
     let mut dts: Vec<NaiveDateTime> = vec![NaiveDateTime::MIN, NaiveDateTime::MAX];
@@ -518,7 +904,41 @@ pub fn run(c: &mut Ctx) {
             let z = o.from_utc_datetime(dt);
             t!(c, "DateTime::to_rfc3339", (dt, o), z.to_rfc3339());
             for sf in [SecondsFormat::Secs, SecondsFormat::Millis, SecondsFormat::Micros, SecondsFormat::Nanos, SecondsFormat::AutoSi] {
-                t!(c, "DateTime::to_rfc3339_opts", (dt, o, sf), z.to_rfc3339_opts(sf, true));
+                // no panic is documented for to_rfc3339_opts; `Z` is written exactly for use_z and offset 0
+                for use_z in [true, false] {
+                    if let Some(s) = t!(c, "DateTime::to_rfc3339_opts", (dt, o, sf, use_z), z.to_rfc3339_opts(sf, use_z)) {
+                        if s.ends_with('Z') != (use_z && o.local_minus_utc() == 0) || s.len() < 20 {
+                            c.fail("DateTime::to_rfc3339_opts writes `Z` other than for use_z with a zero offset, or a truncated text", &format!("{:?} {:?} {:?} use_z={use_z} -> {s}", dt, o, sf));
+                        }
+                    }
+                }
+            }
+            // Days counts over the whole u64 range (the loop below only reaches u32 counts): a Some result is a
+            // valid value exactly that many days away (same offset, so also in UTC) with the same time of day
+            for n in day_counts() {
+                for (sign, r) in [
+                    (1i64, t!(c, "DateTime::checked_add_days", (dt, o, n), z.checked_add_days(Days::new(n)))),
+                    (-1, t!(c, "DateTime::checked_sub_days", (dt, o, n), z.checked_sub_days(Days::new(n)))),
+                ] {
+                    match r {
+                        Some(Some(x)) => {
+                            c.count("zoned-days:some");
+                            let (a, b) = (z.naive_utc(), x.naive_utc());
+                            if !zoned_ok(&x) {
+                                c.fail("operation built an out-of-range zone-aware value", &format!("{:?} {:?} days {sign}*{n}", dt, o));
+                            } else if x.offset() != z.offset() || a.time() != b.time() || i128::from(b.date().signed_duration_since(a.date()).num_days()) != sign as i128 * n as i128 {
+                                c.fail("DateTime::checked_{add,sub}_days returned a value that is not the stated number of days away with the same time of day", &format!("{:?} {:?} days {sign}*{n} -> {:?}", dt, o, b));
+                            }
+                        }
+                        Some(None) => {
+                            c.count("zoned-days:none");
+                            if n == 0 {
+                                c.fail("DateTime::checked_{add,sub}_days refuses a count of zero", &format!("{:?} {:?}", dt, o));
+                            }
+                        }
+                        None => {}
+                    }
+                }
             }
             t!(c, "DateTime Display/Debug", (dt, o), format!("{} {:?}", z, z));
             t!(c, "DateTime::timestamp_nanos_opt", (dt, o), z.timestamp_nanos_opt());
@@ -611,37 +1031,31 @@ pub fn run(c: &mut Ctx) {
             }
         }
     }
+    // ---- NaiveDateTime: Months/Days counts over the whole integer range, with_*; timestamp_micros; enums ----
+    let ndt_bases: Vec<NaiveDateTime> = vec![
+        NaiveDateTime::MIN,
+        NaiveDateTime::MAX,
+        NaiveDate::MAX.and_hms_nano_opt(23, 59, 59, 1_999_999_999).unwrap(), // leap second on the last second of the range
+        NaiveDate::MIN.and_hms_nano_opt(23, 59, 59, 1_500_000_000).unwrap(), // leap second on the first day of the range
+        NaiveDate::MIN.and_hms_nano_opt(0, 0, 59, 1_000_000_000).unwrap(),
+        NaiveDate::from_ymd_opt(1970, 1, 1).unwrap().and_hms_opt(0, 0, 0).unwrap(),
+        NaiveDate::from_ymd_opt(2024, 2, 29).unwrap().and_hms_nano_opt(23, 59, 59, 1_999_999_999).unwrap(),
+        NaiveDate::from_ymd_opt(2023, 1, 31).unwrap().and_hms_nano_opt(12, 30, 0, 999_999_999).unwrap(),
+        NaiveDate::from_ymd_opt(0, 12, 31).unwrap().and_hms_opt(23, 59, 59).unwrap(),
+        NaiveDate::from_ymd_opt(-1, 1, 1).unwrap().and_hms_opt(0, 0, 0).unwrap(),
+    ];
+    ndt_sweep(c, &ndt_bases);
+    micros_and_enum_sweep(c, &offs);
     // ---- Parsed: extremes through every resolver ----------------------------------------------
     let n_parsed = c.n(20000, 300000);
     for _ in 0..n_parsed {
         let mut p = Parsed::new();
         let pick_i = |c: &mut Ctx| *c.rng.pick(&[i64::MIN, -1, 0, 1, 12, 31, 59, 60, 99, 100, 366, 999_999_999, 2024, 262142, 262143, -262143, -262144, i32::MAX as i64, i32::MIN as i64, i64::MAX, -8_334_601_228_800, 8_210_266_876_799, 8_210_266_876_800]);
-        for k in 0..21 {
+        for k in 0..N_SETTERS_RANDOM {
             if c.rng.chance(1, 3) {
                 let v = pick_i(c);
-                let _ = guard(|| match k {
-                    0 => p.set_year(v).is_ok(),
-                    1 => p.set_year_div_100(v).is_ok(),
-                    2 => p.set_year_mod_100(v).is_ok(),
-                    3 => p.set_isoyear(v).is_ok(),
-                    4 => p.set_isoyear_div_100(v).is_ok(),
-                    5 => p.set_isoyear_mod_100(v).is_ok(),
-                    6 => p.set_quarter(v).is_ok(),
-                    7 => p.set_month(v).is_ok(),
-                    8 => p.set_week_from_sun(v).is_ok(),
-                    9 => p.set_week_from_mon(v).is_ok(),
-                    10 => p.set_isoweek(v).is_ok(),
-                    11 => p.set_weekday(WD[(v.rem_euclid(7)) as usize]).is_ok(),
-                    12 => p.set_ordinal(v).is_ok(),
-                    13 => p.set_day(v).is_ok(),
-                    14 => p.set_ampm(v % 2 == 0).is_ok(),
-                    15 => p.set_hour12(v).is_ok(),
-                    16 => p.set_hour(v).is_ok(),
-                    17 => p.set_minute(v).is_ok(),
-                    18 => p.set_second(v).is_ok(),
-                    19 => p.set_nanosecond(v).is_ok(),
-                    _ => p.set_timestamp(v).is_ok(),
-                });
+                // under catch_unwind; a panic, a wrong error kind or a value the field does not hold is reported
+                parsed_set_checked(c, &mut p, k, v);
             }
         }
         // the public fields allow values the setters would refuse
@@ -735,6 +1149,20 @@ pub fn run(c: &mut Ctx) {
         "%", "%-", "%.", "%:", "%.3", "%#", "%:::", "%+", "%c %r %D %F %T %v %x %X", "%5", "%-A", "%_Z", "%.3x", "%Q", "%😽", "%%%",
     ];
     let n_text = c.n(40000, 400000);
+    let fmt_values: Vec<DateTime<FixedOffset>> = {
+        let (max, min) = (DateTime::<Utc>::MAX_UTC, DateTime::<Utc>::MIN_UTC);
+        let east = |s: i32| FixedOffset::east_opt(s).unwrap();
+        let leap = NaiveDate::from_ymd_opt(2016, 12, 31).unwrap().and_hms_nano_opt(23, 59, 59, 1_999_999_999).unwrap();
+        vec![
+            max.with_timezone(&east(3600)),   // local view in year 262143
+            max.with_timezone(&east(-86399)), // 262142-12-31T00:00:00.999999999-23:59:59
+            min.with_timezone(&east(-86399)), // local view in year -262144
+            min.with_timezone(&east(86399)),
+            east(0).from_utc_datetime(&leap), // 23:59:60.999999999
+            east(-19800).from_utc_datetime(&leap),
+            east(0).timestamp_opt(0, 0).unwrap(), // the epoch
+        ]
+    };
     for i in 0..n_text {
         let mut s: String = if i % 3 == 0 {
             let len = c.rng.below(40);
@@ -832,8 +1260,35 @@ pub fn run(c: &mut Ctx) {
             let mut out = String::new();
             write!(out, "{}", z.format(fmt)).is_ok()
         });
+        // the same on the ends of the range (local views beyond NaiveDateTime::MIN/MAX), a leap second, the epoch
+        for zv in &fmt_values {
+            t!(c, "DelayedFormat::write_to", (fmt, zv.naive_utc(), zv.offset()), {
+                use std::fmt::Write;
+                let mut out = String::new();
+                write!(out, "{}", zv.format(fmt)).is_ok()
+            });
+        }
         if i < 3 {
             c.sample(&format!("text {:?} / format {:?} through every parser entry point", text, fmt));
         }
     }
+    // ---- the NaiveDateTime sweep on random values (drawn last: the random stream of the sections above is
+    // the one the recorded runs had) ---------------------------------------------------------------------
+    let n_rand = c.n(40, 400);
+    let mut rand_bases: Vec<NaiveDateTime> = vec![];
+    for i in 0..n_rand {
+        let secs = match i % 4 {
+            0 => c.rng.range(-8_334_601_228_800, 8_210_266_876_799),
+            1 => -8_334_601_228_800 + c.rng.range(0, 400 * 86_400),
+            2 => 8_210_266_876_799 - c.rng.range(0, 400 * 86_400),
+            _ => c.rng.range(-62_167_219_200, 253_402_300_799),
+        };
+        let ns = c.rng.nanos();
+        if let Some(d) = DateTime::from_timestamp(secs, ns) {
+            let d = d.naive_utc();
+            // one in five as a leap-second representation of the same second
+            rand_bases.push(if c.rng.chance(1, 5) { d.with_nanosecond(1_000_000_000 + ns).unwrap_or(d) } else { d });
+        }
+    }
+    ndt_sweep(c, &rand_bases);
 }
